@@ -1,4 +1,37 @@
+(* Pins the C25 statements and prints what they depend on. Compiled on every run. *)
 From Coq Require Import String.
-From VP Require Import Base.Tactics Trend.Model Trend.Props.
+From VP Require Import Base.Tactics Trend.Model Trend.Proofs Trend.ProofsHamlet Trend.Props.
 Open Scope N_scope.
+
+Check (C25_dp_spec : forall q es, dp_count q es = trends q es).
+Check (C25_hamlet_correct : forall qs es i q,
+  nth_error qs i = Some q -> has_kleene q -> ~ Known_C25_hamlet q es ->
+  nth i (h_flush qs es) 0 = trends q es /\
+  forall k out, nth_error (h_reports qs es) k = Some out -> nth_error out i = Some None).
+Check (C25_sharing_invariant : forall qs es i q,
+  nth_error qs i = Some q -> has_kleene q -> ~ Known_C25_hamlet q es ->
+  nth i (h_flush qs es) 0 = nth 0 (h_flush [q] es) 0).
+Check (C25_hamlet_correct_refuted :
+  exists q es, Known_C25_hamlet q es /\ nth 0 (h_flush [q] es) 0 <> trends q es).
+Check (C25_hamlet_incremental_refuted :
+  exists q es out, nth_error (h_reports [q] es) 2 = Some out /\ nth_error out 0 = Some (Some 2) /\ trends q es = 1).
+Check (C25_sharing_invariant_refuted :
+  exists q q' es, nth 0 (h_flush [q; q'] es) 0 <> nth 0 (h_flush [q] es) 0 /\ nth 1 (h_flush [q; q'] es) 0 <> trends q' es).
+Check (C25_greta_correct_refuted :
+  exists q es, g_flush [q] es <> [trends q es] /\ snd (g_run [q] (g_init [q]) es) = [[0]; [1]; [4]]).
+Check (C25_greta_sharing_refuted :
+  exists q q' es, nth 0 (g_flush [q; q'] es) 0 <> nth 0 (g_flush [q] es) 0).
+
+(* the notions the statements use *)
+Check (eq_refl : trends = fun q es => N.of_nat (length (filter (accepts q) (sublists es)))).
+Check (eq_refl : Known_C25_hamlet = fun q es => exists t, In t es /\ memN t (kleene_types q) = true).
+Check (eq_refl : has_kleene = fun q => exists k, In k (q_kleene q) /\ (k < qlen q)%nat).
+
+Print Assumptions C25_dp_spec.
+Print Assumptions C25_hamlet_correct.
+Print Assumptions C25_sharing_invariant.
 Print Assumptions C25_hamlet_correct_refuted.
+Print Assumptions C25_hamlet_incremental_refuted.
+Print Assumptions C25_sharing_invariant_refuted.
+Print Assumptions C25_greta_correct_refuted.
+Print Assumptions C25_greta_sharing_refuted.
